@@ -57,6 +57,9 @@ type Ctx struct {
 	ReplayIn  string
 	MaxFail   int
 	failCount map[string]int
+	// hangs counts implementation timeouts; after a few the run stops generating (every hang leaves a
+	// spinning goroutine behind, and the violation is established)
+	hangs int
 }
 
 func (c *Ctx) Thorough() bool { return c.Tier == "thorough" }
@@ -195,12 +198,24 @@ func RunCases[T any](c *Ctx, s *Spec[T], cases []T) {
 		if hi > len(cases) {
 			hi = len(cases)
 		}
+		if c.hangs >= 3 {
+			c.CountN("skipped-after-3-hangs", len(cases)-lo)
+			return
+		}
 		chunk := cases[lo:hi]
-		reqs := make([]Sexp, len(chunk))
-		impls := make([]Sexp, len(chunk))
+		reqs := make([]Sexp, 0, len(chunk))
+		impls := make([]Sexp, 0, len(chunk))
 		for i, t := range chunk {
-			reqs[i] = s.Req(t)
-			impls[i] = s.runImpl(t)
+			reqs = append(reqs, s.Req(t))
+			impls = append(impls, s.runImpl(t))
+			if impls[i].Head() == "timeout" {
+				c.hangs++
+				if c.hangs >= 3 {
+					c.CountN("skipped-after-3-hangs", len(chunk)-i-1)
+					chunk = chunk[:i+1]
+					break
+				}
+			}
 		}
 		models, err := c.Drv.AskBatch(reqs)
 		if err != nil {
@@ -259,7 +274,7 @@ func handleDisagreement[T any](c *Ctx, s *Spec[T], t T) {
 	}
 	_, sig0, impl, model := sigOf(t)
 	cur := t
-	if s.Shrink != nil {
+	if s.Shrink != nil && impl.Head() != "timeout" {
 		deadline := time.Now().Add(20 * time.Second)
 		for progress := true; progress && time.Now().Before(deadline); {
 			progress = false
